@@ -505,13 +505,104 @@ func forkTwinChecks(c *caseCtx) {
 				okAll = play(a, cyc[k%4]) && play(b, cyc[k%4])
 				n++
 				if oa, ob := boardObs(zt, a, true), boardObs(zt, b, true); oa != ob {
-					fmt.Printf("IMPLVIOL forktwin start=%q forkAt=%d ply=%d :: after work on a fork the original reports [%s], a twin that was never forked [%s] prop=C08 key=fork-changes-original\n", start, forkAt, k+1, oa, ob)
+					fmt.Printf("IMPLVIOL forktwin start=%q forkAt=%d ply=%d :: after work on a fork the original reports [%s], a twin that was never forked [%s] prop=%s key=fork-changes-original\n", start, forkAt, k+1, oa, ob, c.prop)
 					okAll = false
+				}
+				// and the game continued on a fork taken here reports what the twin reports (the fork replaces
+				// the original from this ply on in a second run of the same game)
+				if k+1 == forkAt+1 && okAll {
+					g := a.Fork()
+					t := b.Fork()
+					_ = t
+					for j := k + 1; j < 12; j++ {
+						if !play(g, cyc[j%4]) {
+							break
+						}
+						tw := board.NewBoard(zt, posB, turn, np, fm)
+						for i := 0; i <= j; i++ {
+							play(tw, cyc[i%4])
+						}
+						og, ot := boardObs(zt, g, true), boardObs(zt, tw, true)
+						// the fork does not know the moves before the fork point as its own (LastMove etc. are the same, hasMoved too): compare everything
+						if og != ot {
+							fmt.Printf("IMPLVIOL forktwin start=%q forkAt=%d ply=%d :: the game continued on a fork reports [%s], the same game on a board of its own [%s] prop=%s key=fork-differs\n", start, k+1, j+1, og, ot, c.prop)
+							break
+						}
+					}
 				}
 			}
 		}
 	}
 	fmt.Printf("COUNT forktwin %d\n", n)
+
+	// a fork is a value of its own: what it reports (position, hash) does not change when the board it was
+	// taken from takes the last move back and plays something else
+	for _, start := range []string{fen.Initial, "r3k2r/p1ppqpb1/bn2pnp1/3PN3/1p2P3/2N2Q1p/PPPBBPPP/R3K2R w KQkq - 0 1"} {
+		pos, turn, np, fm, _ := fen.Decode(start)
+		ms := legalMoves(pos, turn)
+		for i := 0; i+1 < len(ms) && i < 12; i++ {
+			a := board.NewBoard(zt, pos, turn, np, fm)
+			a.PushMove(ms[i])
+			f := a.Fork()
+			want := posTok(f.Position())
+			wantHash := f.Hash()
+			a.PopMove()
+			a.PushMove(ms[i+1])
+			if r := legalMoves(a.Position(), a.Turn()); len(r) > 0 {
+				a.PushMove(r[0])
+			}
+			if got := posTok(f.Position()); got != want || f.Hash() != wantHash || f.Hash() != zt.Hash(f.Position(), f.Turn()) {
+				fmt.Printf("IMPLVIOL forkvalue start=%q move=%s then=%s :: after the original took the move back and played another, the fork reads position [%s] hash %x (scratch %x), it read [%s] hash %x prop=%s key=fork-overwritten\n", start, uciMove(ms[i]), uciMove(ms[i+1]), got, uint64(f.Hash()), uint64(zt.Hash(f.Position(), f.Turn())), want, uint64(wantHash), c.prop)
+				break
+			}
+		}
+	}
+
+	// a long walk on the board itself (every line to depth 4 played and taken back: about 200 000 positions)
+	// between two occurrences of a position: take-backs restore everything, so the third occurrence is a draw
+	{
+		pos, turn, np, fm, _ := fen.Decode(fen.Initial)
+		for _, onFork := range []bool{false, true} {
+			a := board.NewBoard(zt, pos, turn, np, fm)
+			play := func(x *board.Board, str string) {
+				cand, _ := board.ParseMove(str)
+				for _, m := range x.Position().PseudoLegalMoves(x.Turn()) {
+					if cand.Equals(m) {
+						x.PushMove(m)
+						return
+					}
+				}
+			}
+			for _, m := range strings.Fields("g1f3 g8f6 f3g1 f6g8") {
+				play(a, m)
+			}
+			w := a
+			if onFork {
+				w = a.Fork()
+			}
+			play(w, "e2e4")
+			var walk func(d int)
+			walk = func(d int) {
+				if d == 0 {
+					return
+				}
+				for _, m := range w.Position().PseudoLegalMoves(w.Turn()) {
+					if w.PushMove(m) {
+						walk(d - 1)
+						w.PopMove()
+					}
+				}
+			}
+			walk(c.scale(4, 4))
+			w.PopMove()
+			for _, m := range strings.Fields("g1f3 g8f6 f3g1 f6g8") {
+				play(w, m)
+			}
+			if r := w.Result(); r.Outcome != board.Draw {
+				fmt.Printf("IMPLVIOL longwalk fork=%v :: after a depth-4 walk played and taken back, the third occurrence of the start position is reported as %v prop=%s key=long-walk\n", onFork, r, c.prop)
+			}
+		}
+	}
 }
 
 func casesGame(c *caseCtx) {
